@@ -90,6 +90,11 @@ DT = _dt.datetime(2020, 1, 2, 3, 4, 5)
 D = _dt.date(2020, 1, 2)
 WRONG = [None, "x", 1.5, True, [], {}, E, Nil, _OBJ, -1, b"b", (1, 2), ()]
 
+import re as _re  # noqa: E402
+
+RE_STR = codec.register("e1_compiled_str_pattern", _re.compile("a"))
+RE_BYTES = codec.register("e1_compiled_bytes_pattern", _re.compile(b"a"))
+ANY0 = Sch(("any", None))
 I1 = Sch(S("int", call(1)))
 SA = Sch(S("str", call("a")))
 SI = Sch(INT)
@@ -129,7 +134,7 @@ def _alphabet(kind, tier):
                 + [("alphabet", (v,)) for v in ("", "a", "ab", "abc", 1, None, E, "{}id0a")]
                 + [("contains", (v,)) for v in ("", "a", "ab", "c", 1, None, E, "{")]
                 + [("regex", (v,)) for v in ("a", "[ab]+", "^a.$", "a{2}", "*", "(",
-                                             "a{99999999999999999999}", 1, None, E)])
+                                             "a{99999999999999999999}", 1, None, E, RE_STR, RE_BYTES)])
     if kind == "bool":
         return [(c, (v,)) for v in (True, False, 1, 0, "x", None, E, Nil)]
     if kind == "bytes":
@@ -147,7 +152,9 @@ def _alphabet(kind, tier):
                 (2, 1), (1, 3), (E, E), (Nil,), ("x",), (None,), (0, E), (E, 0)]
         calls = [SI, [], [I1], [I1, SA], [I1, E], [E, I1], [E, I1, E], [E], [E, E], [SI, E, SI],
                  [1], [None], "x", None, E, (SI,), {}, [I1, SA, E], [E, I1, SA, E],
-                 [Sch(S("int", call(1))), Sch(INT)]]
+                 [Sch(S("int", call(1))), Sch(INT)],
+                 # an accept-anything element first / last in a fully fixed list
+                 [ANY0, I1], [I1, ANY0], [ANY0]]
         return [(c, (v,)) for v in calls] + [("len", a) for a in lens]
     if kind == "dict":
         calls = [{}, {"a": SI}, {Opt("a"): SI, E: E}, {E: E}, {"a": E}, {E: SI}, {"a": 1},
